@@ -107,7 +107,7 @@ func fileExists(name string) (bool, error) {
 	if os.IsNotExist(err) {
 		return false, nil
 	}
-	return err != nil, err
+	return err == nil, err
 }
 
 func (o *Options) populateGlobals(c *cli.Context) error {
